@@ -126,7 +126,7 @@ fn plans_for(spec: &AppSpec, k: usize, route: &model::RouteInfo, with_failures: 
                 n_fail += 1;
             }
             for t in model::closure(spec, &spec.comps[*idx].inputs) {
-                if spec.types[t].fallible.is_some() && seen_types.insert(t) && n_fail < 5 {
+                if spec.types[t].any_variant_fallible() && seen_types.insert(t) && n_fail < 5 {
                     plans.push((0..spec.types[t].variants.max(1)).map(|v| (emit::ctor_name(k, t, v), 1)).collect());
                     n_fail += 1;
                 }
@@ -1017,7 +1017,28 @@ fn chaos_of(base: &AppSpec, seed: u64) -> AppSpec {
         }
     }
     // structural oddities (still type-correct Rust)
-    match next() % 7 {
+    match next() % 9 {
+        7 | 8 => {
+            // an error observer (or an error handler) that borrows a value sitting on a dependency cycle made of references only
+            if let Some(p) = genr::plant(&spec, 1, next() as u16) {
+                spec = p.spec;
+                notes.push(p.what);
+            }
+            let on_cycle: Vec<usize> = (0..spec.types.len()).filter(|t| model::closure(&spec, &spec.types[*t].inputs).contains(t)).collect();
+            let mut registered = vec![];
+            spec.walk_regs(&mut |r, _| {
+                if let Reg::Comp { idx } = r {
+                    registered.push(*idx);
+                }
+            });
+            let target = registered.iter().copied().find(|c| matches!(spec.comps[*c].kind, CompKind::Observer)).or_else(|| registered.iter().copied().find(|c| matches!(spec.comps[*c].kind, CompKind::ErrHandler { .. })));
+            if let (Some(t), Some(c)) = (on_cycle.first(), target) {
+                if !spec.comps[c].inputs.iter().any(|(x, _)| x == t) {
+                    spec.comps[c].inputs.push((*t, Mode::Ref));
+                }
+                notes.push(format!("x{c} (error path) borrows T{t}, which sits on a dependency cycle"));
+            }
+        }
         0 => {
             // duplicate a registration
             if !spec.bp.is_empty() {
@@ -1076,8 +1097,15 @@ fn chaos_of(base: &AppSpec, seed: u64) -> AppSpec {
 
 fn verdict_check(mut chk: Check) -> ! {
     let tier = chk.tier();
+    if std::env::var("PX_WATCHDOG").is_err() {
+        // warm compiler runs take 1-5 s; 150 s without an answer is reported as inconclusive
+        #[allow(unused_unsafe)]
+        unsafe {
+            std::env::set_var("PX_WATCHDOG", "150")
+        };
+    }
     chk.ev.rule = "pairs (rule-abiding base application, chaos variant = 1-3 planted rule violations + a structural oddity: duplicated registration, 5-35 levels of nesting, malformed prefix/domain, no routes, mixed guarded/unguarded routes) compiled into the same output crate: first the base (must be accepted), then the variant. Oracle for every compiler run: terminates within the watchdog, exit status 0 or 1, no panic/abort, exit 0 => Cargo.toml and src/lib.rs exist, exit 1 => at least one ERROR diagnostic; when the variant fails, the SDK generated for the base is byte-for-byte untouched. non-trivial = the variant was rejected (atomicity exercised) or the blueprint has >=25 registrations; distinct = distinct variant spec".into();
-    chk.ev.assume("user crates always compile (variants that do not are discarded and counted); hangs are turned into exit 2 by a 400 s watchdog, never into a violation");
+    chk.ev.assume("user crates always compile (variants that do not are discarded and counted); a compiler run that does not finish within the watchdog (150 s; warm runs take 1-5 s) makes the check exit 2 (inconclusive) and saves the case, it is never reported as a violation");
     let (n_pairs, lanes) = match tier {
         Tier::Quick => (24usize, 3usize),
         Tier::Thorough => (600, 6),
@@ -1156,6 +1184,7 @@ fn verdict_check(mut chk: Check) -> ! {
     });
     let mut outs = outs;
     outs.sort_by_key(|(i, _)| *i);
+    let mut watchdog_hits = 0u32;
     for (ci, res) in outs {
         let chunk = &chunks[ci];
         let verdicts = match res {
@@ -1171,9 +1200,21 @@ fn verdict_check(mut chk: Check) -> ! {
             for (which, spec, v) in [("base", base, Some(&vb)), ("variant", variant, vv.as_ref())] {
                 let Some(v) = v else { continue };
                 chk.ev.evaluations += 1;
+                if v.timed_out && v.cpu_bound {
+                    // the compiler process burnt its whole CPU budget (load-independent; warm runs need 1-5 s of CPU): it does not terminate
+                    save_violation(&mut chk, "chaos", "does-not-terminate:cpu-budget-exhausted", &format!("pavexc itself used more than {} s of CPU time on a {which} application ({}) without producing a verdict; comparable applications take 1-5 s", engine::cpu_limit_secs(), spec.note), spec, json!({"which": which}));
+                    continue;
+                }
                 if v.timed_out {
-                    eprintln!("INCONCLUSIVE property=C09: pavexc hit the watchdog on a {which} application");
+                    // a wall-clock limit cannot prove non-termination: reported as inconclusive (exit 2), the case is kept for inspection
+                    eprintln!("INCONCLUSIVE property=C09: pavexc did not finish within the watchdog ({} s) on a {which} application ({}); normal runs take 1-5 s", engine::watchdog_secs(), spec.note);
+                    let dir = std::path::Path::new(vcommon::VERIF_ROOT).join(".work/violations/C09");
+                    let _ = std::fs::create_dir_all(&dir);
+                    let f = dir.join(format!("watchdog-seed{}-{}.json", chk.settings.seed, chk.ev.evaluations));
+                    let _ = std::fs::write(&f, serde_json::to_string_pretty(&json!({"property": "C09", "campaign": "chaos", "signature": "watchdog", "message": "compiler did not terminate within the watchdog", "case": {"spec": spec}})).unwrap());
+                    eprintln!("INCONCLUSIVE case saved to {}", f.display());
                     chk.ev.label("watchdog");
+                    watchdog_hits += 1;
                     continue;
                 }
                 let sig = v.signature();
@@ -1211,6 +1252,11 @@ fn verdict_check(mut chk: Check) -> ! {
             }
         }
     }
+    if watchdog_hits > 0 && chk.ev.violations == 0 {
+        chk.ev.write();
+        eprintln!("INCONCLUSIVE property=C09: {watchdog_hits} compiler run(s) hit the watchdog");
+        std::process::exit(2);
+    }
     chk.finish()
 }
 
@@ -1235,6 +1281,12 @@ fn determinism_check(mut chk: Check) -> ! {
             specs.push(genr::build_routing(&strat.new_tree(&mut runner).unwrap().current(), 0));
         }
     }
+    // every sixth application is a naming-stress application (several same-named fallible singleton constructors)
+    for i in 0..specs.len() {
+        if i % 6 == 4 {
+            specs[i] = genr::build_naming_stress(chk.settings.sub_seed("naming") ^ (i as u64).wrapping_mul(0x9e3779b97f4a7c15));
+        }
+    }
     let cold = tier == Tier::Thorough;
     let groups: Vec<Vec<usize>> = (0..lanes).map(|l| (0..specs.len()).filter(|i| i % lanes == l).collect()).collect();
     let outs: Vec<(usize, Result<Vec<String>, (String, String)>)> = std::thread::scope(|s| {
@@ -1247,7 +1299,10 @@ fn determinism_check(mut chk: Check) -> ! {
                 let mut out = vec![];
                 // up to 6 applications share one build of the application crate; their histories run side by side
                 for batch in g.chunks(6) {
-                    let batch_specs: Vec<AppSpec> = batch.iter().map(|i| specs[*i].clone()).collect();
+                    let mut batch_specs: Vec<AppSpec> = batch.iter().map(|i| specs[*i].clone()).collect();
+                    // the last module is an empty blueprint: "another project" that is generated into the same output crate in between
+                    let other = batch_specs.len();
+                    batch_specs.push(AppSpec { note: "empty blueprint".into(), ..Default::default() });
                     if let Err(e) = round::prepare(&lane, &batch_specs) {
                         out.extend(batch.iter().map(|i| (*i, Err(("infra".to_string(), e.clone())))));
                         continue;
@@ -1255,7 +1310,7 @@ fn determinism_check(mut chk: Check) -> ! {
                     let lane = &lane;
                     
                     let res: Vec<_> = std::thread::scope(|s2| {
-                        let hs: Vec<_> = batch.iter().enumerate().map(|(k, i)| s2.spawn(move || (*i, determinism_history(lane, k, cold && k == 0)))).collect();
+                        let hs: Vec<_> = batch.iter().enumerate().map(|(k, i)| s2.spawn(move || (*i, determinism_history(lane, k, other, cold && k == 0)))).collect();
                         hs.into_iter().map(|h| h.join().unwrap()).collect()
                     });
                     out.extend(res);
@@ -1300,7 +1355,7 @@ fn determinism_check(mut chk: Check) -> ! {
     chk.finish()
 }
 
-fn determinism_history(lane: &engine::Lane, k: usize, cold: bool) -> Result<Vec<String>, (String, String)> {
+fn determinism_history(lane: &engine::Lane, k: usize, other: usize, cold: bool) -> Result<Vec<String>, (String, String)> {
     let mut labels = vec![];
     let dir = lane.ws().join(format!("ind/sdk_{k}"));
     let diag = lane.dir.join(format!("diag-c10-{k}.dot"));
@@ -1378,7 +1433,30 @@ fn determinism_history(lane: &engine::Lane, k: usize, cold: bool) -> Result<Vec<
     if !v5.accepted() || hashes(&fp()) != hashes(&f1) {
         return Err(("not-deterministic".into(), "regenerating over a stale file did not restore the original bytes".to_string()));
     }
-    // 6. cache independence (expensive: cold cache)
+    // 6. history independence: the output crate was last generated for another blueprint (with
+    // another set of dependencies); both directions must give the bytes of a first-time generation
+    {
+        lane.reset_crate(&sdk_rel, &sdk_name);
+        let vo = round::verdict_k(lane, other, k, false, &[], None);
+        if vo.accepted() {
+            let fo1 = round::fingerprint(&files[..2]);
+            let vk = round::verdict_k(lane, k, k, false, &[], Some(&diag));
+            if !vk.accepted() || hashes(&fp()) != hashes(&f1) {
+                return Err(("history-dependent-output".into(), "generating over an output crate that was last generated for another (empty) blueprint does not give the bytes of a first-time generation".to_string()));
+            }
+            let vo2 = round::verdict_k(lane, other, k, false, &[], None);
+            let fo2 = round::fingerprint(&files[..2]);
+            if !vo2.accepted() || hashes(&fo2) != hashes(&fo1) {
+                return Err(("history-dependent-output".into(), "generating the empty blueprint over the output of this application does not give the bytes of its first-time generation (stale content is kept)".to_string()));
+            }
+            // leave the application's own output in place
+            let _ = round::verdict_k(lane, k, k, false, &[], Some(&diag));
+            labels.push("history:other-project-in-between".into());
+        } else {
+            labels.push("history:empty-blueprint-not-accepted".into());
+        }
+    }
+    // 7. cache independence (expensive: cold cache)
     if cold {
         let cold_home = lane.dir.join("home-cold");
         let _ = std::fs::remove_dir_all(&cold_home);
